@@ -3,6 +3,10 @@
 Every operand of every call is a VIEW (slice) of a larger array. Before the call every operand, every parent, every unit
 object and the registry rows are snapshotted; after the call - returned or raised - the obligations are term-for-term
 equalities (z3, under the path condition, tol=0) between the snapshot and what the objects hold now.
+
+Histories: the same disciplines are applied to every step of two- and three-call sequences run inside ONE path (refused /
+returned in-place call, refused / returned copying call, on the same or on another array), so that whatever a call leaves
+behind in unyt (a cache entry, a shared helper object, a switch a raising call did not reset) meets the next call.
 """
 import copy as _copy
 import operator
@@ -25,7 +29,13 @@ MANIFEST = dict(
           "z3 reals; z3 proves per path that every input of a copying call, and the target of an in-place call that raised, "
           "hold exactly the terms they held before (numbers, unit object fields, dtype, parent array, registry rows), and that "
           "a successful in-place call changed only its target and agrees with the copying twin. Integer-buffer failure points "
-          "run on real int8..int64 buffers with symbolic unit scales. Counterexamples are replayed on plain unyt."),
+          "run on real int8..int64 buffers with symbolic unit scales. Call HISTORIES are part of the enumeration: all two-call and "
+          "a family of three-call sequences over {refused in-place, returned in-place, refused copying, returned copying} calls "
+          "(10 equivalences and pairs of equivalences sharing a dimension; conversions, base conversions, operators, ufuncs with "
+          "out=, array functions, item assignment, copies and Unit arithmetic on one operand set) run inside one path without any "
+          "reset in between, each step held to its frame rule, with the results of earlier steps, the module-level physical "
+          "constants and the registry's unit system as bystanders; read-only targets are one more injected fault. "
+          "Counterexamples are replayed on plain unyt."),
     design="DESIGN.md section 4 C18",
     technique="symbolic execution of the real Python code over z3 real terms; frame obligations (term equality under the path condition) decided by z3; counterexample replay")
 EXPLANATION = (
@@ -41,7 +51,14 @@ EXPLANATION = (
     "the parent's elements it overlays) changed, the target's numbers are within the 1e-6 band of the copying twin's numbers and "
     "its unit has the twin's fields. Where the library never touches a buffer the equalities are syntactic and discharge at once; "
     "the solver's real work is on paths where data was rewritten (in-place vs copying twin, conversion of the second operand, "
-    "offset subtraction) and in producing the counter-models for mutations."
+    "offset subtraction) and in producing the counter-models for mutations. "
+    "History cases run two or three such calls one after the other inside one path (unyt's caches and module-level objects are "
+    "not reset in between; an in-place step is NOT preceded by its copying twin, the twin of a step that returned runs afterwards on "
+    "a harness-built clone of the old target): every step gets its own snapshot and its own frame obligations, labelled with the "
+    "step, so a copying call that writes into its input only after an earlier in-place call was refused (state left behind by the "
+    "raising call) is a counter-model of 'step 2 ...: copying call returned: numbers of p unchanged'. What a copying step returned "
+    "is tracked as a bystander of the later steps and must share no memory with an operand or an earlier result; the physical "
+    "constants the equivalences read and the registry's unit system object are bystanders too."
 )
 BOUNDS = {
     "quick": "conversions x 5 entry points x {valid plain/prefixed/affine/compound/table/EM/identity, dimension mismatch, unknown unit, "
@@ -61,18 +78,40 @@ BOUNDS = {
              "the routes that fail before arithmetic; float-only forms (x**2 / x**0.5 / x**-1 fast paths, modf/divmod/frexp/copysign/"
              "isfinite with out= tuples) on concrete doubles with symbolic unit scales. Operands are 2-element slices of 4-element "
              "parents (2x2 slices of 4x2 parents where a matrix is needed). The quick tier drops the bare/other-unit/wrong-shape out= "
-             "forms for most ufuncs and half of the copy-then-edit and Unit-pair combinations",
+             "forms for most ufuncs and half of the copy-then-edit and Unit-pair combinations. "
+             "HISTORIES (calls in one path, no reset in between): (A) equivalence conversions, table units with symbolic payloads and "
+             "symbolic mu/gamma: thermal: 20 first calls {in-place refused by: target outside the equivalence, unexpected keyword, "
+             "unknown unit, unknown equivalence, source outside the equivalence, read-only target, int8 target; in-place returned "
+             "(other side / same-dimension unit); copying refused x5; copying returned} x 2 in-place entry points x 11 second calls "
+             "{to_equivalent, to, in_units, to_value with equivalence=, same-dimension target, convert_to_equivalent, "
+             "convert_to_units(equivalence=), refused copying, refused in-place} x {other array in the other side's unit; same array "
+             "(every 4th pair in quick)}; the 9 other configurations (mass_energy, spectral x2, sound_speed x2, number_density, "
+             "schwarzschild, compton, effective_temperature) x 3 first x 2 second calls; 9 ordered pairs of equivalences that share "
+             "a dimension x 3 x 2; all 64 three-call words over {refused in-place, returned in-place, refused copying, returned "
+             "copying} for thermal. (B) one operand set in harness units with symbolic scales (q, p sharing a Unit object, c in "
+             "another dimension, out= buffers o/o3/o4, a read-only view w): 18 in-place letters (convert_to_units valid/dimension/"
+             "unknown, convert_to_cgs, convert_to_base(unknown), +=, += dimension, *=, -= on read-only, np.add out=o / out=input / "
+             "dimension mismatch with out / wrong-shape out, np.concatenate out= valid/dimension, item assignment valid/dimension, "
+             "sort) x 11 second calls, 6 refused copying letters x 5, 5 returned copying letters x 4, alternating same-array / "
+             "other-array; an affine operand set (symbolic offsets) 9 x 5; 64 + 32 three-call words (conversion letters; operator "
+             "letters, words that start with an in-place call). (C) read-only targets: 22 in-place call forms on a read-only view",
     "thorough": "the same catalogue with every op x variant x out= form, array operands and scalar operands (element 1 of a 4-element "
-                "parent), integer buffers int8/uint8/int16/uint16/int32/int64",
+                "parent), integer buffers int8/uint8/int16/uint16/int32/int64; histories: thermal 20 x 11 x both array patterns, the "
+                "other 9 equivalences 9 x 7 x both patterns, equivalence pairs 3 x 6, three-call words for thermal/sound_speed/spectral "
+                "x two array patterns, scalar operands for 15 thermal pairs; (B) ALL ordered pairs of the 42 letters x both array "
+                "patterns, affine set x both patterns, 4 x 64 three-call words",
 }
-OUTSIDE = ("IEEE rounding/overflow/nan (A1); complex payloads; in-place calls whose out= is a second view object over memory of "
+OUTSIDE = ("IEEE rounding/overflow/nan (A1); complex payloads; histories longer than three calls, histories that cross the "
+           "equivalence / plain-catalogue operand sets, and state that survives a path only in a worker process (every path starts "
+           "from whatever the previous path of that worker left in module-level objects other than the lru_caches: on the unchanged "
+           "tree nothing; a history therefore always contains its own first call); in-place calls whose out= is a second view object over memory of "
            "an input (only out-is-the-input aliasing is enumerated); dask/astropy/pint/h5py bridges; the integer-buffer and float-only "
            "routes run on concrete numbers (the buffer content is not symbolic there, the unit scales/offsets are); what a successful "
            "in-place dtype change does to the integer parent under the target (C16) and float16 precision of 2-byte integers (C17); "
            "ndarray.std and the divmod operator on symbolic payloads (NumPy has no object-dtype route for them: std is not run, divmod "
            "runs on concrete doubles); whether a call SHOULD have been refused (C01) or returns the right numbers (C03/C04/C06) - only "
            "the frame and the in-place/copy agreement are claimed here")
-CONFORM = {"quick": 80, "thorough": 240}
+CONFORM = {"quick": 120, "thorough": 360}
 
 # harness unit rows: name -> (attribute of unyt.dimensions, has symbolic offset)
 ROWS = {"xa": ("length", False), "xb": ("length", False), "xs": ("time", False), "xm": ("mass", False),
@@ -209,6 +248,10 @@ class Snap:
         self.ufields = unit_fields(self.uobj) if self.uobj is not None else None
 
 
+class _Lut(dict):
+    """copy of the registry rows at snapshot time (+ the registry's unit system object)"""
+
+
 class Env:
     """registry + tracked objects of one harness run"""
 
@@ -309,7 +352,9 @@ class Env:
     # ---------------------------------------------------------------- snapshots
     def snapshot(self):
         snaps = {k: Snap(o) for k, o in self.tracked.items()}
-        return snaps, dict(self.reg.lut)
+        lut0 = _Lut(self.reg.lut)
+        lut0.unit_system = self.reg.unit_system
+        return snaps, lut0
 
     def _intact(self, tag, key, s, what=("numbers", "unit", "dtype")):
         ctx = self.ctx
@@ -336,6 +381,8 @@ class Env:
                 break
             ok = And(ok, exact_eq(now[0], row[0]), now[1] == row[1], exact_eq(now[2], row[2]), now[3] == row[3], now[4] == row[4])
         self.ctx.require(f"{tag}: registry rows unchanged", ok)
+        if getattr(lut0, "unit_system", None) is not None:
+            self.ctx.require(f"{tag}: unit system of the registry unchanged", self.reg.unit_system is lut0.unit_system)
 
     def all_intact(self, tag, S):
         snaps, lut0 = S
@@ -360,31 +407,55 @@ class Env:
             self.ctx.observe("result", obs(flat(r[1])))
         return r
 
-    def inplace(self, tkeys, fn, twin, expect=None, slack=0):
+    def _wants(self, tkeys, tw, expect):
+        if expect:
+            return expect(tw[1])
+        if len(tkeys) == 1:
+            return [(flat(tw[1]), getattr(tw[1], "units", None))]
+        return [(flat(x), getattr(x, "units", None)) for x in tw[1]]
+
+    def clone(self, s):
+        """a fresh, untracked array holding what the snapshot s held (numbers and the unit OBJECT of that moment): built by the
+        harness from the snapshot, not by a copying call of the library"""
+        raw = np.empty(len(s.vals), dtype=s.dtype)
+        for i, v in enumerate(s.vals):
+            raw[i] = v
+        return self.unyt.unyt_array(raw.reshape(s.shape), s.uobj)
+
+    def inplace(self, tkeys, fn, twin, expect=None, slack=0, pre="", twin_after=False):
         """an in-place call on the tracked objects tkeys. twin() is the corresponding copying call (evaluated first; it is
         itself held to the copying discipline). expect(twin_result) -> [(numbers, unit or None)] per target: what the target
-        must hold after success; default: the twin's payload and unit."""
+        must hold after success; default: the twin's payload and unit.
+        pre: label prefix (the step of a history). twin_after (histories): NO call of the library precedes the in-place call;
+        only if it returned, twin(*clones) is run afterwards on harness-built clones of what the targets held before, and is
+        itself held to the copying discipline (clones and every tracked object)."""
         ctx = self.ctx
         if isinstance(tkeys, str):
             tkeys = [tkeys]
-        S0 = self.snapshot()
-        tw = lib_call(twin)
-        self.all_intact("copying twin", S0)
-        wants = None
-        if tw[0] == "ok":  # taken now: the twin's result may be a view of an input (np.einsum, transposes ...)
-            if expect:
-                wants = expect(tw[1])
-            elif len(tkeys) == 1:
-                wants = [(flat(tw[1]), getattr(tw[1], "units", None))]
-            else:
-                wants = [(flat(x), getattr(x, "units", None)) for x in tw[1]]
+        tw, wants = ("raise", "not run"), None
+        if not twin_after:
+            S0 = self.snapshot()
+            tw = lib_call(twin)
+            self.all_intact(pre + "copying twin", S0)
+            if tw[0] == "ok":  # taken now: the twin's result may be a view of an input (np.einsum, transposes ...)
+                wants = self._wants(tkeys, tw, expect)
         snaps, lut0 = self.snapshot()
         r = lib_call(fn)
         self.outcome(r)
         pkeys = [self.parent_of[t][0] for t in tkeys if t in self.parent_of]
         others = [k for k in snaps if k not in tkeys and k not in pkeys]
+        if twin_after and r[0] == "ok":
+            clones = [self.clone(snaps[t]) for t in tkeys]
+            S1 = self.snapshot()
+            csnaps = [Snap(c) for c in clones]
+            tw = lib_call(lambda: twin(*clones))
+            if tw[0] == "ok":
+                wants = self._wants(tkeys, tw, expect)
+            for t, cs in zip(tkeys, csnaps):
+                self._intact(pre + "copying twin (run after, on a clone of the old target)", "clone of " + t, cs)
+            self.all_intact(pre + "copying twin (run after, on a clone of the old target)", S1)
         if r[0] == "raise":
-            tag = "in-place call raised"
+            tag = pre + "in-place call raised"
             for t in tkeys:
                 self._intact(tag, t + "(target)", snaps[t])
             for t in tkeys:
@@ -402,7 +473,7 @@ class Env:
                             vals_same([pnow[i] for i in outside], [ps.vals[i] for i in outside]), to_solver=True)
                 self._intact(tag, p + "(parent of target)", ps, what=("unit", "dtype"))
         else:
-            tag = "in-place call returned"
+            tag = pre + "in-place call returned"
             ctx.require(f"{tag}: the copying twin returns too", tw[0] == "ok", twin=str(tw[1])[:120])
             if tw[0] == "ok":
                 for t, (want_vals, want_unit) in zip(tkeys, wants):
@@ -1257,6 +1328,423 @@ def typed_setitem_case(vname, iname):
     return Case(_cid("setitem", "typed", vname, f"index={iname}", "incompatible value"), h)
 
 
+# =========================================================================================== histories
+#
+# Sequences of two and three calls inside ONE path. unyt's caches are cleared (and module state is whatever the previous path
+# left) only at the start of a path, so everything a call leaves behind - a cache entry, a shared helper object, a switch that a
+# raising call did not reset, a Unit object shared by two arrays - is still there when the next call of the history runs. Every
+# step is held to its own discipline (copying: every tracked object as before; in-place: raised -> target as before, returned ->
+# agrees with the copying twin), with the snapshot taken right before that step. In-place steps run WITHOUT a preceding twin
+# call (twin_after): the history is exactly the sequence of calls named in the case id; the twin of a step that returned is run
+# afterwards on a harness-built clone of the old target.
+
+def _track_result(E, k, r):
+    """what a copying step returned is an object of its own: the later steps of the history must leave it alone"""
+    if r[0] == "ok" and isinstance(r[1], np.ndarray):
+        # 'returns a new object': the result shares no memory with an operand, a bystander or what an earlier step returned
+        shared = [key for key, o in E.tracked.items() if isinstance(o, np.ndarray) and (o is r[1] or np.shares_memory(o, r[1]))]
+        E.ctx.require(f"step {k}: the result of a copying call is a new object (shares no memory with an operand or an earlier result)",
+                      not shared, shares_with=shared)
+    if r[0] == "ok" and (getattr(r[1], "is_Unit", False) or isinstance(r[1], np.ndarray)):
+        E.track(f"result of step {k}", r[1])
+
+
+HEQ_CONSTANTS = ("kboltz", "clight", "mh", "h_mks", "G", "stefan_boltzmann_constant_mks")  # what the equivalences compute with
+
+
+def _hist_id(seq):
+    return ",".join(f"{letter}@{t}" if not c else f"{c}.{letter}@{t}" for (letter, t, c) in seq)
+
+
+# ---- (A) equivalence conversions. cfg -> (equivalence, (unit, same-dimension alternative) of side A, of side B, valid kwargs,
+#      a target unit outside the equivalence, kwargs the equivalence does not take)
+HEQ = {
+    "thermal": ("thermal", ("K", "mK"), ("keV", "J"), {}, "s", {"mu": 2.0}),
+    "mass_energy": ("mass_energy", ("g", "kg"), ("J", "erg"), {}, "s", {"mu": 2.0}),
+    "spectral": ("spectral", ("nm", "m"), ("eV", "J"), {}, "K", {"mu": 2.0}),
+    "spectral_freq": ("spectral", ("MHz", "Hz"), ("m", "cm"), {}, "K", {"mu": 2.0}),
+    "sound_speed": ("sound_speed", ("K", "mK"), ("km/s", "m/s"), {"mu": "sym", "gamma": "sym"}, "g", {"nu": 2.0}),
+    "sound_speed_E": ("sound_speed", ("km/s", "m/s"), ("keV", "J"), {}, "g", {"nu": 2.0}),
+    "number_density": ("number_density", ("g/cm**3", "kg/m**3"), ("cm**-3", "m**-3"), {"mu": "sym"}, "s", {"gamma": 2.0}),
+    "schwarzschild": ("schwarzschild", ("Msun", "kg"), ("km", "m"), {}, "s", {"mu": 2.0}),
+    "compton": ("compton", ("me", "g"), ("angstrom", "nm"), {}, "s", {"mu": 2.0}),
+    "effective_temperature": ("effective_temperature", ("K", "mK"), ("W/m**2", "erg/s/cm**2"), {}, "s", {"mu": 2.0}),
+}
+HEQ_OUTSIDER = "A"  # a unit whose dimension belongs to no equivalence
+HEQ_COPY = {"te": lambda x, u, e, kw: x.to_equivalent(u, e, **kw), "to": lambda x, u, e, kw: x.to(u, equivalence=e, **kw),
+            "iu": lambda x, u, e, kw: x.in_units(u, equivalence=e, **kw), "tv": lambda x, u, e, kw: x.to_value(u, equivalence=e, **kw)}
+HEQ_INPLACE = {"ce": (lambda x, u, e, kw: x.convert_to_equivalent(u, e, **kw), "te"),
+               "cu": (lambda x, u, e, kw: x.convert_to_units(u, equivalence=e, **kw), "to")}
+# letters: <C|I>.<variant>:<entry>. variants: ok (to the other side), same (same-dimension unit: the plain conversion route),
+# tgt / kw / unit / name / src (refused: target outside the equivalence, unexpected keyword, unknown unit, unknown equivalence,
+# source outside the equivalence), ro (read-only target), int (int8 target: NumPy refuses the cast into it)
+HEQ_REFUSED = ("tgt", "kw", "unit", "name", "src", "ro", "int")
+
+
+class _HeqState:
+    def __init__(self, E, seq, shape):
+        self.E, self.cur = E, {}
+        ctx = E.ctx
+        first = HEQ[seq[0][2]]
+        variants = {l.split(".")[1].split(":")[0] for (l, _, _) in seq}
+        targets = {t for (_, t, _) in seq}
+        q = E.view("q", first[1][0], shape, pos=True)
+        if shape == ():
+            E.track("q", q)
+        self.cur["q"] = first[1][0]
+        if "p" in targets:
+            E.view("p", first[2][0], shape, pos=True)
+            self.cur["p"] = first[2][0]
+        if "src" in variants:
+            E.view("r", HEQ_OUTSIDER, (2,), pos=True)
+            self.cur["r"] = HEQ_OUTSIDER
+        if "ro" in variants:
+            w = E.view("w", first[1][0], (2,), pos=True)
+            w.flags.writeable = False  # the view only: its parent stays writeable
+            self.cur["w"] = first[1][0]
+        if "int" in variants:
+            E.concrete("i", [3, 40], first[1][0], dtype="int8")
+            self.cur["i"] = first[1][0]
+        # shared objects every equivalence conversion reads: the module-level physical constants
+        pc = E.unyt.physical_constants
+        for n in HEQ_CONSTANTS:
+            E.track("constant " + n, getattr(pc, n))
+
+
+def _heq_step(H, k, letter, tname, cfg):
+    E = H.E
+    ctx = E.ctx
+    eq, sideA, sideB, kwspec, badtgt, badkw = HEQ[cfg]
+    kv, _, entry = letter.partition(":")
+    kind, variant = kv.split(".")
+    tname = {"src": "r", "ro": "w", "int": "i"}.get(variant, tname)
+    x = E.tracked[tname]
+    cur = H.cur[tname]
+    if cur in sideA:
+        dst, alt = sideB[0], sideA[1 - sideA.index(cur)]
+    elif cur in sideB:
+        dst, alt = sideA[0], sideB[1 - sideB.index(cur)]
+    else:
+        dst, alt = sideA[0], sideA[1]
+    kws = {n: (ctx.real(f"kw{k}_{n}", pos=True) if v == "sym" else v) for n, v in kwspec.items()}
+    u, e = (alt if variant == "same" else dst), eq
+    if variant == "tgt":
+        u = badtgt
+    elif variant == "kw":
+        kws = dict(badkw)
+    elif variant == "unit":
+        u = "xnope"
+    elif variant == "name":
+        e = "xnope"
+    pre = f"step {k} {letter}@{tname}: "
+    known_side = cur in sideA or cur in sideB
+    E.must_return = variant in ("ok", "same") and known_side
+    if kind == "C":
+        f = HEQ_COPY[entry]
+        r = E.copying(lambda: f(x, u, e, kws), tag=pre + "copying")
+        _track_result(E, k, r)
+    else:
+        f, twn = HEQ_INPLACE[entry]
+        tw = HEQ_COPY[twn]
+        flags = (E.parent_full, E.under_check)
+        if variant == "int":
+            E.parent_full, E.under_check = True, False
+        r, _ = E.inplace(tname, lambda: f(x, u, e, kws), lambda c: tw(c, u, e, kws), pre=pre, twin_after=True)
+        E.parent_full, E.under_check = flags
+        if r[0] == "ok":
+            H.cur[tname] = u
+    E.must_return = False
+    if variant in HEQ_REFUSED and (known_side or variant in ("src", "unit", "name")):
+        ctx.require(pre + "catalogue sanity: this call form is listed as refused and must raise", r[0] == "raise")
+    return r
+
+
+def hist_equiv_case(seq, shape=(2,)):
+    """seq: [(letter, target name, cfg)]"""
+    def h(ctx):
+        E = Env(ctx)
+        E.observe_values = False  # root witnesses of the sound-speed / effective-temperature routes are not observable
+        H = _HeqState(E, seq, shape)
+        for k, (letter, tname, cfg) in enumerate(seq, 1):
+            _heq_step(H, k, letter, tname, cfg)
+    cfgs = [c for (_, _, c) in seq]
+    name = cfgs[0] if len(set(cfgs)) == 1 else ">".join(cfgs)
+    return Case(_cid("hist-equiv", name, _hist_id([(l, t, None) for (l, t, _) in seq]), "shape" + _shape_tag(shape)), h)
+
+
+# ---- (B) the plain catalogue: conversions, base conversions, operators, ufuncs with out=, array functions, item assignment,
+#      copies and Unit arithmetic on ONE operand set in harness units with symbolic scales (and offsets in the affine set):
+#      q, p (same unit string: they share their Unit object through unyt's caches), c (another dimension), o/o3/o4 (out= buffers),
+#      w (a read-only view)
+HMIX_UNITS = {"plain": ("xa", "xb", "xs"), "affine": ("xta", "xtb", "xs")}
+
+
+def _unwrap_buffer(x):
+    """A9: `objarr[i] = zero_d_quantity` stores the 0-d wrapper itself where a float buffer stores its number (see elements()).
+    Before the NEXT call of a history reads that buffer the wrapper is replaced by the term it wraps (same number)."""
+    raw = x.view(np.ndarray)
+    if raw.dtype != object:
+        return
+    for idx in np.ndindex(raw.shape):
+        e = raw[idx]
+        if isinstance(e, np.ndarray):
+            while isinstance(e, np.ndarray) and e.shape == () and e.dtype == object:
+                e = np.asarray(e)[()]
+            raw[idx] = e
+
+
+def _mix_dst(H, t):
+    uA, uB, _ = H.units
+    return uB if H.cur.get(t) == uA else uA
+
+
+def _setitem_expect(x, conv):
+    old, xu = list(elements(x)), x.units
+    return lambda tv: [([flat(tv)[0]] + old[1:], xu)]
+
+
+# copying letters: name -> f(H, x, y) -> the call
+HMIX_COPY = {
+    "C.in_units": lambda H, x, y, t: (lambda: x.in_units(_mix_dst(H, t))),
+    "C.to": lambda H, x, y, t: (lambda: x.to(_mix_dst(H, t))),
+    "C.to_value": lambda H, x, y, t: (lambda: x.to_value(_mix_dst(H, t))),
+    "C.in_units(dim)": lambda H, x, y, t: (lambda: x.in_units(H.units[2])),
+    "C.to(unknown)": lambda H, x, y, t: (lambda: x.to("xnope")),
+    "C.in_cgs": lambda H, x, y, t: (lambda: x.in_cgs()),
+    "C.in_base(unknown)": lambda H, x, y, t: (lambda: x.in_base("xnope")),
+    "C.add": lambda H, x, y, t: (lambda: x + y),
+    "C.sub(dim)": lambda H, x, y, t: (lambda: x - H.c),
+    "C.mul": lambda H, x, y, t: (lambda: x * H.c),
+    "C.lt": lambda H, x, y, t: (lambda: x < y),
+    "C.neg": lambda H, x, y, t: (lambda: -x),
+    "C.np.add": lambda H, x, y, t: (lambda: np.add(x, y)),
+    "C.np.add(dim)": lambda H, x, y, t: (lambda: np.add(x, H.c)),
+    "C.concatenate": lambda H, x, y, t: (lambda: np.concatenate([x, y])),
+    "C.concatenate(dim)": lambda H, x, y, t: (lambda: np.concatenate([x, H.c])),
+    "C.where": lambda H, x, y, t: (lambda: np.where(_mask(), x, y)),
+    "C.copy": lambda H, x, y, t: (lambda: x.copy()),
+    "C.deepcopy": lambda H, x, y, t: (lambda: _copy.deepcopy(x)),
+    "C.getitem": lambda H, x, y, t: (lambda: x[0]),
+    "C.unit_mul": lambda H, x, y, t: (lambda: x.units * H.c.units),
+    "C.unit_eq": lambda H, x, y, t: (lambda: x.units == y.units),
+    "C.unit_pow": lambda H, x, y, t: (lambda: x.units ** 2),
+    "C.get_base_equivalent": lambda H, x, y, t: (lambda: x.units.get_base_equivalent("cgs")),
+}
+HMIX_COPY_REFUSED = ("C.in_units(dim)", "C.to(unknown)", "C.in_base(unknown)", "C.sub(dim)", "C.np.add(dim)", "C.concatenate(dim)")
+# in-place letters: name -> f(H, x, y, t) -> dict(keys, fn, twin(*clones), expect=None, newcur=None)
+HMIX_INPLACE = {
+    "I.convert": lambda H, x, y, t: (lambda d: dict(keys=[t], fn=lambda: x.convert_to_units(d), twin=lambda c: c.in_units(d), newcur=d))(_mix_dst(H, t)),
+    "I.convert(dim)": lambda H, x, y, t: dict(keys=[t], fn=lambda: x.convert_to_units(H.units[2]), twin=lambda c: c.in_units(H.units[2])),
+    "I.convert(unknown)": lambda H, x, y, t: dict(keys=[t], fn=lambda: x.convert_to_units("xnope"), twin=lambda c: c.in_units("xnope")),
+    "I.convert_to_cgs": lambda H, x, y, t: dict(keys=[t], fn=lambda: x.convert_to_cgs(), twin=lambda c: c.in_cgs(), newcur="cgs"),
+    "I.convert_to_base(unknown)": lambda H, x, y, t: dict(keys=[t], fn=lambda: x.convert_to_base("xnope"), twin=lambda c: c.in_base("xnope")),
+    "I.iadd": lambda H, x, y, t: dict(keys=[t], fn=lambda: operator.iadd(x, y), twin=lambda c: c + y),
+    "I.iadd(dim)": lambda H, x, y, t: dict(keys=[t], fn=lambda: operator.iadd(x, H.c), twin=lambda c: c + H.c),
+    "I.imul": lambda H, x, y, t: dict(keys=[t], fn=lambda: operator.imul(x, 2.0), twin=lambda c: c * 2.0),
+    "I.isub(ro)": lambda H, x, y, t: dict(keys=["w"], fn=lambda: operator.isub(H.w, y), twin=lambda c: c - y),
+    "I.add(out=o)": lambda H, x, y, t: dict(keys=["o"], fn=lambda: np.add(x, y, out=H.o), twin=lambda c: np.add(x, y)),
+    "I.add(out=x)": lambda H, x, y, t: dict(keys=[t], fn=lambda: np.add(x, y, out=x), twin=lambda c: np.add(c, y)),
+    "I.add(dim,out=o)": lambda H, x, y, t: dict(keys=["o"], fn=lambda: np.add(x, H.c, out=H.o), twin=lambda c: np.add(x, H.c)),
+    "I.add(out=o3)": lambda H, x, y, t: dict(keys=["o3"], fn=lambda: np.add(x, y, out=H.o3), twin=lambda c: np.add(x, y)),
+    "I.concatenate(out=o4)": lambda H, x, y, t: dict(keys=["o4"], fn=lambda: np.concatenate([x, y], out=H.o4), twin=lambda c: np.concatenate([x, y])),
+    "I.concatenate(dim,out=o4)": lambda H, x, y, t: dict(keys=["o4"], fn=lambda: np.concatenate([x, H.c], out=H.o4), twin=lambda c: np.concatenate([x, H.c])),
+    "I.setitem": lambda H, x, y, t: dict(keys=[t], fn=lambda: operator.setitem(x, 0, y[0]), twin=lambda c: y[0].in_units(c.units),
+                                        expect=_setitem_expect(x, None)),
+    "I.setitem(dim)": lambda H, x, y, t: dict(keys=[t], fn=lambda: operator.setitem(x, 0, H.c[0]), twin=lambda c: H.c[0].in_units(c.units),
+                                             expect=_setitem_expect(x, None)),
+    "I.sort": lambda H, x, y, t: dict(keys=[t], fn=lambda: x.sort(), twin=lambda c: np.sort(c)),
+}
+HMIX_INPLACE_REFUSED = ("I.convert(dim)", "I.convert(unknown)", "I.convert_to_base(unknown)", "I.iadd(dim)", "I.isub(ro)",
+                        "I.add(dim,out=o)", "I.add(out=o3)", "I.concatenate(dim,out=o4)", "I.setitem(dim)")
+
+
+class _HmixState:
+    def __init__(self, E, seq, unitset):
+        self.E, self.units, self.cur = E, HMIX_UNITS[unitset], {}
+        uA, uB, uC = self.units
+        E.need(uB)
+        letters = "".join(l for (l, _, _) in seq)
+        for t in ("q", "p"):
+            E.view(t, uA, (2,))
+            self.cur[t] = uA
+        self.c = E.view("c", uC, (2,))
+        needed = set(re.findall(r"out=(o\d?)\)", letters)) | ({"w"} if "(ro)" in letters else set())
+        for name in ("o", "o3", "o4", "w"):
+            if name in needed:
+                v = E.view(name, uA, {"o": (2,), "o3": (3,), "o4": (4,), "w": (2,)}[name])
+                if name == "w":
+                    v.flags.writeable = False
+                setattr(self, name, v)
+                self.cur[name] = uA
+
+
+def _hmix_step(H, k, letter, t):
+    E = H.E
+    x, y = E.tracked[t], E.tracked["p" if t == "q" else "q"]
+    pre = f"step {k} {letter}@{t}: "
+    if letter in HMIX_COPY:
+        r = E.copying(HMIX_COPY[letter](H, x, y, t), tag=pre + "copying")
+        _track_result(E, k, r)
+        refused = letter in HMIX_COPY_REFUSED
+    else:
+        d = HMIX_INPLACE[letter](H, x, y, t)
+        r, _ = E.inplace(d["keys"], d["fn"], d["twin"], expect=d.get("expect"), pre=pre, twin_after=True,
+                         slack=H.slack if letter.startswith("I.setitem") else 0)
+        if r[0] == "ok" and d.get("newcur"):
+            H.cur[d["keys"][0]] = d["newcur"]
+        if letter.startswith("I.setitem"):
+            _unwrap_buffer(x)
+        refused = letter in HMIX_INPLACE_REFUSED
+    if refused:
+        E.ctx.require(pre + "catalogue sanity: this call form is listed as refused and must raise", r[0] == "raise")
+    return r
+
+
+def hist_mix_case(seq, unitset):
+    """seq: [(letter, target name 'q'|'p', None)]"""
+    def h(ctx):
+        E = Env(ctx)
+        E.observe_values = False
+        H = _HmixState(E, seq, unitset)
+        H.slack = 0
+        if unitset == "affine":
+            # a value assigned into an array in a unit that agrees with the array's to 1e-9 is stored unconverted (see setitem_case)
+            (sa, oa), (sb, ob) = E.rows["xta"], E.rows["xtb"]
+            H.slack = (abs(oa) + abs(ob * sb / sa) + abs(ob) + abs(oa * sa / sb)) * 1e-6
+        for k, (letter, t, _) in enumerate(seq, 1):
+            _hmix_step(H, k, letter, t)
+    return Case(_cid("hist-mix", unitset, _hist_id(seq)), h)
+
+
+# ---- (C) read-only targets: one more kind of invalid input for in-place calls (NumPy refuses to write). Single calls.
+READONLY = {
+    "convert_to_units": ("xa", lambda w, b: w.convert_to_units("xb"), lambda w, b: w.in_units("xb")),
+    "convert_to_units(affine)": ("xta", lambda w, b: w.convert_to_units("xtb"), lambda w, b: w.in_units("xtb")),
+    "convert_to_units(table)": ("m", lambda w, b: w.convert_to_units("cm"), lambda w, b: w.in_units("cm")),
+    "convert_to_units(identity)": ("xa", lambda w, b: w.convert_to_units("xa"), lambda w, b: w.in_units("xa")),
+    "convert_to_base(cgs)": ("xa", lambda w, b: w.convert_to_base("cgs"), lambda w, b: w.in_base("cgs")),
+    "convert_to_mks": ("cm", lambda w, b: w.convert_to_mks(), lambda w, b: w.in_mks()),
+    "convert_to_equivalent": ("K", lambda w, b: w.convert_to_equivalent("keV", "thermal"), lambda w, b: w.to_equivalent("keV", "thermal")),
+    "convert_to_equivalent(same dims)": ("K", lambda w, b: w.convert_to_equivalent("mK", "thermal"), lambda w, b: w.to_equivalent("mK", "thermal")),
+    "convert_to_units(equivalence=)": ("K", lambda w, b: w.convert_to_units("J", equivalence="thermal"), lambda w, b: w.to("J", equivalence="thermal")),
+    "iadd": ("xa", lambda w, b: operator.iadd(w, b), lambda w, b: w + b),
+    "imul": ("xa", lambda w, b: operator.imul(w, 2.0), lambda w, b: w * 2.0),
+    "imul(unit)": ("xa", lambda w, b: operator.imul(w, b), lambda w, b: w * b),
+    "np.add(out=w)": ("xa", lambda w, b: np.add(b, b, out=w), lambda w, b: np.add(b, b)),
+    "np.multiply(out=w)": ("xa", lambda w, b: np.multiply(b, b, out=w), lambda w, b: np.multiply(b, b)),
+    "np.sqrt(out=w)": ("xa", lambda w, b: np.sqrt(b, out=w), lambda w, b: np.sqrt(b)),
+    "setitem": ("xa", lambda w, b: operator.setitem(w, 0, b[0]), None),
+    "fill": ("xa", lambda w, b: w.fill(b[0]), None),
+    "sort": ("xa", lambda w, b: w.sort(), None),
+    "np.copyto": ("xa", lambda w, b: np.copyto(w, b), None),
+    "np.concatenate(out=w)": ("xa", lambda w, b: np.concatenate([b[:1], b[:1]], out=w), lambda w, b: np.concatenate([b[:1], b[:1]])),
+    "np.clip(out=w)": ("xa", lambda w, b: np.clip(b, b[0], b[1], out=w), lambda w, b: np.clip(b, b[0], b[1])),
+    "np.put": ("xa", lambda w, b: np.put(w, [0], b[1]), None),
+}
+
+
+def readonly_case(name):
+    unit, f, tw = READONLY[name]
+    # 'rescale': the calls that end in convert_to_units' rescaling of the array's own buffer
+    route = ("rescale" if name.startswith(("convert_to_units(", "convert_to_base", "convert_to_mks", "convert_to_equivalent(same")) or name == "convert_to_units"
+             else "equivalence" if name.startswith("convert_to_") else "other")
+    if name == "convert_to_units(equivalence=)":
+        route = "equivalence"
+
+    def h(ctx):
+        E = Env(ctx)
+        E.observe_values = False
+        w = E.view("w", unit, (2,), pos=True)
+        w.flags.writeable = False
+        b = E.view("b", "xb" if unit == "xa" else unit, (2,), pos=True)
+        E.need("xb")
+        E.need("xtb")
+        r, _ = E.inplace("w", lambda: f(w, b), (lambda c: tw(c, b)) if tw else (lambda c: None), pre="", twin_after=True)
+        ctx.require("a read-only target is refused", r[0] == "raise")
+    return Case(_cid("readonly", route, name, unit, "read-only target"), h)
+
+
+def _history_cases(tier):
+    quick = tier == "quick"
+    out = []
+    # ---------------- (A) equivalences
+    C_OK = ["C.ok:te", "C.ok:to", "C.ok:iu", "C.ok:tv"]
+    first = ["I.tgt:ce", "I.tgt:cu", "I.kw:ce", "I.kw:cu", "I.unit:ce", "I.name:cu", "I.src:ce", "I.ro:ce", "I.ro:cu", "I.int:ce",
+             "I.ok:ce", "I.ok:cu", "I.same:ce", "C.tgt:te", "C.kw:to", "C.unit:iu", "C.name:tv", "C.src:te", "C.ok:te", "C.same:to"]
+    second = C_OK + ["C.same:te", "I.ok:ce", "I.ok:cu", "I.same:cu", "C.tgt:te", "I.tgt:ce"]
+    n = 0
+    for l1 in first:
+        for l2 in second:
+            for tp in (("q", "p"), ("q", "q")):
+                n += 1
+                # quick: the other-array pattern for every pair, the same-array pattern for every second pair
+                if quick and tp == ("q", "q") and n % 4:
+                    continue
+                out.append(hist_equiv_case([(l1, tp[0], "thermal"), (l2, tp[1], "thermal")]))
+    # every other equivalence: refused / returned in-place call, then a copying and an in-place call
+    for cfg in HEQ:
+        if cfg == "thermal":
+            continue
+        f1 = ["I.tgt:ce", "I.kw:cu", "I.ok:ce"] if quick else ["I.tgt:ce", "I.tgt:cu", "I.kw:ce", "I.kw:cu", "I.ro:ce", "I.ok:ce", "I.ok:cu", "C.tgt:te", "C.ok:te"]
+        f2 = ["C.ok:te", "I.ok:cu"] if quick else C_OK + ["I.ok:ce", "I.ok:cu", "C.same:te"]
+        for l1 in f1:
+            for l2 in f2:
+                for tp in ((("q", "p"),) if quick else (("q", "p"), ("q", "q"))):
+                    out.append(hist_equiv_case([(l1, tp[0], cfg), (l2, tp[1], cfg)]))
+    # two equivalences that share a dimension: the first call under one, the second under the other
+    for c1, c2, t2 in [("thermal", "sound_speed", "q"), ("sound_speed", "thermal", "q"), ("thermal", "effective_temperature", "q"),
+                       ("thermal", "sound_speed_E", "p"), ("mass_energy", "thermal", "p"), ("schwarzschild", "compton", "p"),
+                       ("compton", "schwarzschild", "p"), ("spectral", "thermal", "p"), ("spectral", "spectral_freq", "p")]:
+        for l1 in ["I.tgt:ce", "I.kw:cu", "I.ok:ce"]:
+            for l2 in (["C.ok:te", "I.ok:cu"] if quick else C_OK + ["I.ok:ce", "I.ok:cu"]):
+                out.append(hist_equiv_case([(l1, "q", c1), (l2, t2, c2)]))
+    # three steps: every word over {refused in-place, returned in-place, refused copying, returned copying}
+    R = ["I.tgt:ce", "I.ok:cu", "C.tgt:te", "C.ok:to"]
+    for cfg in (["thermal"] if quick else ["thermal", "sound_speed", "spectral"]):
+        for a in R:
+            for b in R:
+                for c in R:
+                    for tp in ((("q", "p", "q"),) if quick else (("q", "p", "q"), ("q", "q", "p"))):
+                        out.append(hist_equiv_case([(a, tp[0], cfg), (b, tp[1], cfg), (c, tp[2], cfg)]))
+    if not quick:
+        for l1 in ["I.tgt:ce", "I.kw:cu", "I.ok:ce"]:
+            for l2 in C_OK + ["I.ok:ce"]:
+                out.append(hist_equiv_case([(l1, "q", "thermal"), (l2, "q", "thermal")], shape=()))
+    # ---------------- (B) the plain catalogue
+    allI, allC = list(HMIX_INPLACE), list(HMIX_COPY)
+    if quick:
+        obs_c = ["C.in_units", "C.to_value", "C.in_cgs", "C.add", "C.np.add", "C.concatenate", "C.copy", "C.unit_mul"]
+        obs_i = ["I.convert", "I.iadd", "I.add(out=o)"]
+        pairs = [(a, b) for a in allI for b in obs_c + obs_i]
+        pairs += [(a, b) for a in HMIX_COPY_REFUSED for b in ["C.in_units", "C.add", "I.convert", "I.iadd", "I.add(out=o)"]]
+        pairs += [(a, b) for a in ["C.in_units", "C.in_cgs", "C.add", "C.concatenate", "C.unit_mul"] for b in ["I.convert", "I.iadd", "I.setitem", "C.to"]]
+    else:
+        pairs = [(a, b) for a in allI + allC for b in allI + allC]
+    for n, (a, b) in enumerate(pairs):
+        for tp in ((("q", "q"), ("q", "p"))[n % 2:n % 2 + 1] if quick else (("q", "q"), ("q", "p"))):
+            out.append(hist_mix_case([(a, tp[0], None), (b, tp[1], None)], "plain"))
+    aff1 = ["I.convert", "I.convert(dim)", "I.convert(unknown)", "I.iadd(dim)", "I.setitem(dim)", "I.setitem", "I.add(dim,out=o)", "C.in_units(dim)", "C.in_units"]
+    aff2 = ["C.in_units", "C.to_value", "C.copy", "I.convert", "I.setitem"]
+    for n, a in enumerate(aff1):
+        for b in aff2:
+            for tp in ((("q", "p"),) if quick else (("q", "q"), ("q", "p"))):
+                out.append(hist_mix_case([(a, tp[0], None), (b, tp[1], None)], "affine"))
+    words = [["I.convert(dim)", "I.convert", "C.in_units(dim)", "C.in_units"], ["I.iadd(dim)", "I.iadd", "C.sub(dim)", "C.add"]]
+    if not quick:
+        words += [["I.add(dim,out=o)", "I.add(out=o)", "C.np.add(dim)", "C.np.add"], ["I.setitem(dim)", "I.setitem", "C.concatenate(dim)", "C.concatenate"]]
+    for wi, R in enumerate(words):
+        for a in R:
+            for b in R:
+                for c in R:
+                    if quick and wi == 1 and not a.startswith("I."):
+                        continue  # quick: the operator words that start with an in-place call
+                    out.append(hist_mix_case([(a, "q", None), (b, "p", None), (c, "q", None)], "plain"))
+    # ---------------- (C) read-only targets
+    for name in READONLY:
+        out.append(readonly_case(name))
+    return out
+
+
 # =========================================================================================== cases
 
 def coverage_extra(results, tier):
@@ -1270,7 +1758,8 @@ def coverage_extra(results, tier):
     return {"families": fam,
             "frame_rule": "a copying call: every tracked object (operands, their parents, unit objects, registry rows) equals its snapshot; "
                           "an in-place call that raised: the same, target included; an in-place call that returned: target ~ copying twin "
-                          "(1e-6 band), unit fields of the twin, parent elements outside the target and every other object equal their snapshot"}
+                          "(1e-6 band), unit fields of the twin, parent elements outside the target and every other object equal their snapshot; "
+                          "history cases: the same rule per step with a snapshot taken right before that step, no reset between steps"}
 
 
 def cases(tier, mods):
@@ -1406,6 +1895,8 @@ def cases(tier, mods):
             if quick and (name == "frexp@dim" or (name == "frexp" and of not in ("none", "fresh")) or of == "otherunit"):
                 continue
             out.append(float_ufunc_case(name, arity, nout, ua, ub, fault, of))
+    # ---- histories of two and three calls in one path; read-only targets
+    out += _history_cases(tier)
     ids = set()
     uniq = []
     for c in out:
